@@ -6,7 +6,7 @@ repo = sys.argv[1] if len(sys.argv) > 1 else '/repo'
 base = json.load(open('/root/.vp/BASELINE.json'))
 fd, xml = tempfile.mkstemp(suffix='.xml'); os.close(fd)
 env = dict(os.environ); env.pop('BYCYCLE_VERIF', None)
-subprocess.run(['/venv/bin/python', '-m', 'pytest', '-q', '-p', 'no:cacheprovider', '--timeout=900',
+subprocess.run(['/venv/bin/python', '-m', 'pytest', '-q', '-p', 'no:cacheprovider', '--timeout=240',
                 '--continue-on-collection-errors', '--junitxml=' + xml], cwd=repo, env=env,
                stdout=subprocess.DEVNULL, stderr=subprocess.DEVNULL)
 passed = set()
